@@ -24,8 +24,11 @@ CONSTANTS Offs, Sizes, Mtimes,   \* generator universe
           MaxChunks,             \* generator: number of data chunks
           Canon,                 \* generator: TRUE = only lists in ascending (off, size, mtime) order
           MaxOps                 \* generator: reorganisation steps after the chunks
-VARIABLES top, data, fsize, hist
-vars == <<top, data, fsize, hist>>
+VARIABLES top, data, fsize, hist,
+          rd,    \* the sequential reader (ChunkStreamReader): [on, S = the chunks it was opened over, pos, lost]
+          old    \* an earlier chunk list of the file (what MinusChunks compares the current one with)
+vars == <<top, data, fsize, hist, rd, old>>
+aux == <<rd, old>>
 
 RECURSIVE Flat(_)
 Flat(es) ==
@@ -99,14 +102,65 @@ StreamSkipsHoles(S, off, size, got) ==
   /\ Len(P) < StreamLen(S, off, size)            \* only when the window has a hole
   /\ Len(got) = Len(P)
   /\ \A j \in 1..Len(P) : got[j] \in Allowed(S, P[j])
+(* the same finding in ChunkStreamReader.Read: when the n bytes from the position on contain
+   a hole, the reader hands out the next n COVERED bytes instead (fewer + "EOF" when the
+   chunks run out) and its position is then behind the last byte it handed out *)
+SReadSkipsHoles(S, pos, n, got, nret, err) ==
+  LET end == MaxEnd(S)
+      P == CoveredFrom(S, pos, end)
+      k == IF n < Len(P) THEN n ELSE Len(P) IN
+  /\ (\E i \in pos..((IF pos + n < end THEN pos + n ELSE end) - 1) : Covering(S, i) = {}) = TRUE
+  /\ nret = k /\ Len(got) = k
+  /\ \A j \in 1..k : got[j] \in Allowed(S, P[j])
+  /\ err \in {"", "EOF"} /\ (err = "EOF" => k = Len(P)) /\ ((n > 0 /\ k = 0) => err = "EOF")
+SReadSkipsHolesPos(S, pos, n) ==
+  LET P == CoveredFrom(S, pos, MaxEnd(S))
+      k == IF n < Len(P) THEN n ELSE Len(P) IN
+  IF k > 0 THEN P[k] + 1 ELSE pos
 
 (* ---------------- actions ---------------- *)
-Init == top = <<>> /\ data = <<>> /\ fsize = 0 /\ hist = <<>>
+NoReader == [on |-> FALSE, S |-> {}, pos |-> 0, lost |-> FALSE]
+Init == top = <<>> /\ data = <<>> /\ fsize = 0 /\ hist = <<>> /\ rd = NoReader /\ old = <<>>
 
-View(off, size, views) == ViewOk(Flat(top), off, size, views) /\ UNCHANGED <<top, data, fsize>>
-ReadAt(off, n, got, nret, err) == ReadOk(Flat(top), off, n, got, nret, err) /\ UNCHANGED <<top, data, fsize>>
-Stream(off, size, got) == StreamOk(Flat(top), off, size, got) /\ UNCHANGED <<top, data, fsize>>
-StreamDev(off, size, got) == StreamSkipsHoles(Flat(top), off, size, got) /\ UNCHANGED <<top, data, fsize>>
+View(off, size, views) == ViewOk(Flat(top), off, size, views) /\ UNCHANGED <<top, data, fsize, aux>>
+ReadAt(off, n, got, nret, err) == ReadOk(Flat(top), off, n, got, nret, err) /\ UNCHANGED <<top, data, fsize, aux>>
+Stream(off, size, got) == StreamOk(Flat(top), off, size, got) /\ UNCHANGED <<top, data, fsize, aux>>
+StreamDev(off, size, got) == StreamSkipsHoles(Flat(top), off, size, got) /\ UNCHANGED <<top, data, fsize, aux>>
+
+(* ---------------- the sequential reader (io.ReadSeeker over a chunk list) ----------------
+   It is opened over the chunk list of that moment (S) at position 0 and knows no file
+   size: the stream ends at the end of the last chunk.  Read(p), len(p) = n, hands out
+   nret <= n bytes from the position on, each with an allowed value (holes: zeros), and
+   moves the position; "EOF" only once the end is reached, and a read that hands out
+   nothing although n > 0 must say "EOF" (which it may only at / behind the end).  A
+   short read without "EOF" is admitted (io.Reader).  Seek(off, whence) moves the
+   position to off counted from the start / the position / the end of the last chunk
+   and returns it.  Targets behind the end: the statement does not say whether that is
+   an error; if the reader reports one, nothing is known about its position afterwards
+   (lost) until the next absolute Seek.  Negative targets are not part of the statement
+   (whatever the reader answers, its position is unknown afterwards). *)
+Min2(a, b) == IF a < b THEN a ELSE b
+SOpen == rd' = [on |-> TRUE, S |-> Flat(top), pos |-> 0, lost |-> FALSE] /\ UNCHANGED <<top, data, fsize, old>>
+SeekTarget(off, whence) == CASE whence = 0 -> off [] whence = 1 -> rd.pos + off [] OTHER -> MaxEnd(rd.S) + off
+SSeek(off, whence, res, err) ==
+  /\ rd.on /\ whence \in 0..2
+  /\ IF rd.lost /\ whence = 1 THEN rd' = rd
+     ELSE LET t == SeekTarget(off, whence) IN
+          \/ t < 0 /\ rd' = [rd EXCEPT !.lost = TRUE]
+          \/ t >= 0 /\ err = "" /\ res = t /\ rd' = [rd EXCEPT !.pos = t, !.lost = FALSE]
+          \/ t > MaxEnd(rd.S) /\ err # "" /\ rd' = [rd EXCEPT !.lost = TRUE]
+  /\ UNCHANGED <<top, data, fsize, old>>
+SRead(n, got, nret, err) ==
+  /\ rd.on /\ Len(got) = nret /\ 0 <= nret /\ nret <= n
+  /\ IF rd.lost THEN rd' = rd
+     ELSE LET end == MaxEnd(rd.S) IN
+          /\ nret = 0 \/ rd.pos + nret <= end
+          /\ \A j \in 1..nret : got[j] \in Allowed(rd.S, rd.pos + j - 1)
+          /\ err \in {"", "EOF"}
+          /\ (err = "EOF") => rd.pos + nret >= end
+          /\ (n > 0 /\ nret = 0) => err = "EOF"
+          /\ rd' = [rd EXCEPT !.pos = @ + nret]
+  /\ UNCHANGED <<top, data, fsize, old>>
 
 (* compaction of the data chunks of the top level: kept and garbage partition
    them, the manifests stay, the content is the same *)
@@ -120,16 +174,46 @@ Compact(kept, garbage) ==
   /\ LET keep == {k \in 1..Len(top) : top[k].m \/ top[k].id \in kept}
          new == SelectIdx(top, keep)
      IN ContentPreserved(Flat(top), Flat(new)) /\ top' = new
-  /\ UNCHANGED <<data, fsize>>
+  /\ UNCHANGED <<data, fsize, aux>>
 (* any reorganisation into manifests: the new list has the same content *)
 Reorganize(new) ==
   /\ ContentPreserved(Flat(top), Flat(new))
-  /\ top' = new /\ UNCHANGED <<data, fsize>>
+  /\ top' = new /\ UNCHANGED <<data, fsize, aux>>
 (* more chunks are written: cs are data entries, ds their bytes (ids continue the numbering) *)
 Append_(cs, ds, fs) ==
   /\ \A k \in 1..Len(cs) : ~cs[k].m /\ cs[k].id = Len(data) + k /\ Len(ds[k]) = cs[k].size
   /\ top' = top \o cs /\ data' = data \o ds
   /\ fs >= MaxEnd(Flat(top \o cs)) /\ fs >= fsize /\ fsize' = fs
+  /\ UNCHANGED aux
+
+SReadDev(n, got, nret, err) ==
+  /\ rd.on /\ ~rd.lost
+  /\ SReadSkipsHoles(rd.S, rd.pos, n, got, nret, err)
+  /\ rd' = [rd EXCEPT !.pos = SReadSkipsHolesPos(rd.S, rd.pos, n)]
+  /\ UNCHANGED <<top, data, fsize, old>>
+
+(* ---------------- the length of the content, and which chunks a newer list no longer needs ----------------
+   TotalSize(chunks) is the end of the last byte any data chunk covers; FileSize(entry) is
+   that or the recorded size attribute, whichever is larger (the attribute records
+   trailing holes).  MinusChunks(as, bs): the chunks of as - data chunks and manifest chunks,
+   through every level of manifests - that bs does not contain (by id): what may be
+   deleted when bs replaces as.  Each such chunk once. *)
+SeqRange(s) == {s[k] : k \in 1..Len(s)}
+RECURSIVE AllIds(_)
+AllIds(es) ==
+  IF es = <<>> THEN {}
+  ELSE LET e == Head(es) IN ({e.id} \cup (IF e.m THEN AllIds(e.sub) ELSE {})) \cup AllIds(Tail(es))
+MinusOf(A, B) == AllIds(A) \ AllIds(B)
+TotalSize_(res) == res = MaxEnd(Flat(top)) /\ UNCHANGED <<top, data, fsize, aux>>
+FileSize_(attr, res) ==
+  /\ res = (IF attr > MaxEnd(Flat(top)) THEN attr ELSE MaxEnd(Flat(top)))
+  /\ UNCHANGED <<top, data, fsize, aux>>
+Snap == old' = top /\ UNCHANGED <<top, data, fsize, rd>>
+Minus(dir, res) ==
+  /\ LET A == IF dir = 0 THEN old ELSE top
+         B == IF dir = 0 THEN top ELSE old IN
+     SeqRange(res) = MinusOf(A, B) /\ Len(res) = Cardinality(MinusOf(A, B))
+  /\ UNCHANGED <<top, data, fsize, aux>>
 
 (* ---------------- generator / design level ---------------- *)
 (* a chunk strictly older than what covers each of its bytes is invisible *)
@@ -155,6 +239,7 @@ GenNext ==
           /\ data' = Append(data, [j \in 1..s |-> 16 * id + j])
           /\ fsize' = MaxEnd(Flat(top'))
           /\ Log([ev |-> "add", c |-> e])
+          /\ UNCHANGED aux
   \/ /\ NChunks > 0 /\ NReorg < MaxOps
      /\ \/ /\ LET inv == {c.id : c \in Invisible(Flat(SelectIdx(top, TopData)))}
                   keep == {k \in 1..Len(top) : top[k].m \/ top[k].id \notin inv}
@@ -166,7 +251,8 @@ GenNext ==
              /\ Log([ev |-> "manifestize", batch |-> b])
         \/ /\ top' = <<Pack(top, 200 + NReorg)>>
            /\ Log([ev |-> "nest"])
-     /\ UNCHANGED <<data, fsize>>
+     /\ old' = top
+     /\ UNCHANGED <<data, fsize, rd>>
 Spec == Init /\ [][GenNext]_vars
 
 (* design-level statements, model-checked *)
@@ -184,6 +270,15 @@ ReorgPreserves ==
   [][(hist' # hist /\ hist'[Len(hist')].ev # "add")
      => /\ ContentEqual(Flat(top), Flat(top'))
         /\ (hist'[Len(hist')].ev # "compact" => Flat(top') = Flat(top))]_vars
+
+(* what MinusChunks reports when a reorganised list replaces the one before: never a chunk the
+   new list still refers to, and every chunk of the old list is either still referred to or
+   reported (nothing leaks); the data chunks compaction dropped are exactly the reported data chunks *)
+MinusSafe == MinusOf(old, top) \cap AllIds(top) = {}
+MinusComplete == AllIds(old) \subseteq (MinusOf(old, top) \cup AllIds(top))
+MinusKeepsContent ==
+  LET gone == MinusOf(old, top) IN
+  old # <<>> => ContentEqual(Flat(old), {c \in Flat(old) : c.id \notin gone} \cup (Flat(top) \ Flat(old)))
 
 Emit == (NChunks = 0) \/ PrintT(<<"W", ToJson(hist)>>)
 =============================================================================
